@@ -485,6 +485,19 @@ def run_history(case):
           observe(name, views[name][vi], model[vi], rows, case, universe, where)
     require(rows_digest(impl_rows) == before and list(mapping) == order,
             'source_mapping_mutated', 'raw arrays handed to InMemoryFederatedData changed')
+    # A derived view stands on its own: the caller may drop every reference to
+    # the dataset objects it was derived from (a loader that returns only a
+    # slice, `new(path).slice(...)`) and keep using the view.
+    last = len(case['ops'])
+    leaves = {name: views[name][last] for name in IMPLS}
+    for name in IMPLS:
+      del views[name][:]
+    del sql
+    import gc
+    gc.collect()
+    where = f'view {last} chain={model[last]["kinds"]} after its parents were dropped'
+    for name in IMPLS:
+      observe(name, leaves[name], model[last], rows, case, universe, where)
   finally:
     for c in connections:
       try:
@@ -782,6 +795,101 @@ def slice_labels(case):
   return ls
 
 
+# ------------------------------------------- iteration order across processes
+
+def collect_orders(case):
+  """For every view of the history and every implementation: the client-id order
+  of client_ids(), client_sizes(), clients() and of the first two passes of
+  shuffled_clients(buffer, seed)."""
+  model = simulate(case)
+  impl_rows = make_rows(case)
+  order = [h2b(c['id']) for c in case['clients']]
+  tmp = tempfile.mkdtemp(dir='/var/tmp', prefix='C08o-')
+  connections = []
+  out = {}
+  try:
+    path = os.path.join(tmp, 'data.sqlite')
+    with sql_lib.SQLiteFederatedDataBuilder(path) as builder:
+      builder.add_many((i, impl_rows[i]) for i in order)
+    mapping = {i: impl_rows[i] for i in order}
+    sql = sql_lib.SQLiteFederatedData.new(path)
+    connections.append(getattr(sql, '_connection', None))
+    conn = sqlite3.connect(path)
+    connections.append(conn)
+    views = {
+        'mem': [mem_lib.InMemoryFederatedData(mapping)],
+        'sql': [sql],
+        'sub_mem': [fd_lib.SubsetFederatedData(
+            mem_lib.InMemoryFederatedData(dict(mapping)), list(order))],
+        'sub_sql': [fd_lib.SubsetFederatedData(
+            sql_lib.SQLiteFederatedData(conn, sql_lib.decompress_and_deserialize),
+            set(order))],
+    }
+    for step, op in enumerate(case['ops'], start=1):
+      mv = model[step]
+      for name in IMPLS:
+        views[name].append(apply_op(views[name][mv['parent']], op, mv))
+    for name in IMPLS:
+      for vi, view in enumerate(views[name]):
+        n = len(model[vi]['ids'])
+        rec = {
+            'client_ids': [i.hex() for i in view.client_ids()],
+            'client_sizes': [i.hex() for i, _ in view.client_sizes()],
+            'clients': [i.hex() for i, _ in view.clients()],
+        }
+        if n:
+          it = view.shuffled_clients(case['buffer'], case['seed'])
+          rec['shuffled'] = [i.hex() for i, _ in itertools.islice(it, 2 * n)]
+        out[f'{name}[{vi}]'] = rec
+  finally:
+    for c in connections:
+      try:
+        if c is not None:
+          c.close()
+      except Exception:  # pylint: disable=broad-except
+        pass
+    shutil.rmtree(tmp, ignore_errors=True)
+  return out
+
+
+def run_orders_across_processes(case):
+  """"Iteration order is deterministic": a new interpreter process (another
+  string-hash seed, hence another iteration order of every set and of every dict
+  built from one) walks every view of the history in the same order as this one
+  and draws the same seeded shuffle."""
+  import json
+  import subprocess
+  import sys
+  from vf import env as _env
+  here = collect_orders(case)
+  for hs in case['hashseeds']:
+    env = _env.worker_env()
+    env['PYTHONHASHSEED'] = str(hs)
+    p = subprocess.run([sys.executable, '-m', 'vf.props.c08', json.dumps(case)],
+                       env=env, cwd=_env.VERIF_DIR, capture_output=True, text=True,
+                       timeout=900)
+    line = [l for l in p.stdout.splitlines() if l.startswith('@@C08@@')]
+    if p.returncode != 0 or not line:
+      raise Violation('order:child_process_failed', p.stderr[-1200:])
+    there = json.loads(line[0][7:])
+    for key in sorted(here):
+      for path in here[key]:
+        require(there.get(key, {}).get(path) == here[key][path],
+                f'order_differs_between_processes:{path}',
+                lambda: f'{key} {path}: PYTHONHASHSEED={hs} gives '
+                        f'{there.get(key, {}).get(path)}, this process {here[key][path]}')
+  return None
+
+
+@st.composite
+def orders_strategy(draw, tier):
+  case = draw(history_strategy(tier))
+  case['ops'] = case['ops'][:6]
+  case['hashseeds'] = draw(st.lists(st.integers(1, 10**6), min_size=2, max_size=2,
+                                    unique=True))
+  return case
+
+
 CHECKS = [
     Check(name='histories', run=run_history, strategy=history_strategy,
           labels=labels, nontrivial=nontrivial,
@@ -797,4 +905,17 @@ CHECKS = [
           doc='all 5^4 (current_start, current_stop, new_start, new_stop) over '
               '{None, 4 ordered ids} x 4 id families: intersect_slice_ranges and '
               'nested slice() of the four implementations vs set intersection'),
+    Check(name='iteration_order_across_processes', run=run_orders_across_processes,
+          strategy=orders_strategy, labels=labels, nontrivial=nontrivial,
+          budget={'quick': 48, 'thorough': 640}, time_share=1.5,
+          doc='every view of a generated history is walked (client_ids, '
+              'client_sizes, clients, two seeded shuffled passes) in this process '
+              'and in two fresh interpreters with other PYTHONHASHSEED values: '
+              'the orders must be identical'),
 ]
+
+
+if __name__ == '__main__':
+  import json as _json
+  import sys as _sys
+  print('@@C08@@' + _json.dumps(collect_orders(_json.loads(_sys.argv[1]))))
